@@ -114,24 +114,29 @@ func NewFlagSignalType(name string) *SignalType {
 	return sig
 }
 
+// calcIntegerRange returns the minimum and maximum value of an integer of the given
+// size in bits: the two's complement range if signed, 0..2^size-1 otherwise.
+func calcIntegerRange(size int, signed bool) (float64, float64) {
+	if size <= 0 {
+		// invalid size, rejected by newSignalType
+		return 0, 0
+	}
+
+	if signed {
+		tmpMax := 1<<(size-1) - 1
+		tmpMin := -(1 << (size - 1))
+		return float64(tmpMin), float64(tmpMax)
+	}
+
+	tmp := uint64(1)<<size - 1
+	return 0, float64(tmp)
+}
+
 // NewIntegerSignalType creates a new [SignalType] of kind [SignalTypeKindInteger]
 // with the given name, size, and signed.
 // It may return an error if the size is negative.
 func NewIntegerSignalType(name string, size int, signed bool) (*SignalType, error) {
-	var min float64
-	var max float64
-
-	if signed {
-		tmpMax := (1<<size - 1) - 1
-		tmpMin := -(1<<size - 1)
-		min = float64(tmpMin)
-		max = float64(tmpMax)
-	} else {
-		tmp := (1 << size) - 1
-		min = 0
-		max = float64(tmp)
-	}
-
+	min, max := calcIntegerRange(size, signed)
 	return newSignalType(name, SignalTypeKindInteger, size, signed, min, max, 1, 0)
 }
 
@@ -139,9 +144,8 @@ func NewIntegerSignalType(name string, size int, signed bool) (*SignalType, erro
 // with the given name, size and signed.
 // It may return an error if the size is negative.
 func NewDecimalSignalType(name string, size int, signed bool) (*SignalType, error) {
-	min := (1<<size - 1) - 1
-	max := -(1<<size - 1)
-	return newSignalType(name, SignalTypeKindDecimal, size, signed, float64(min), float64(max), 1, 0)
+	min, max := calcIntegerRange(size, signed)
+	return newSignalType(name, SignalTypeKindDecimal, size, signed, min, max, 1, 0)
 }
 
 func (st *SignalType) stringify(b *strings.Builder, tabs int) {
